@@ -28,7 +28,8 @@ REQUIRED = ["len(feature) checked", "sequence() by path compared", "sequence() b
             "sequence(): features from a database", "bed12 calls by id", "bed12 calls by Feature", "bed12 lines compared",
             "bed12 thickStart/thickEnd judged", "bed12 ValueError expected and raised", "bed12 single-block exports",
             "to_bed12 lines compared (fields 1-3, 10-12)", "bed12 name field absent -> '.'"]
-REQUIRED_CLASSES = ["bed12 fmt=gff3", "bed12 fmt=gtf", "blocks=0", "blocks=1", "blocks>=2", "non-spanning", "strand -", "strand +"]
+
+REQUIRED_CLASSES = ["single block by id", "bed12 fmt=gff3", "bed12 fmt=gtf", "blocks=0", "blocks=1", "blocks>=2", "non-spanning", "strand -", "strand +"]
 ASSUMPTIONS = [
     "'ascending order' = by start; children selected as blocks or thick features never share a start (tie order is not "
     "stated) and are disjoint or abutting",
@@ -181,86 +182,101 @@ def model_transcript(t, fmt):
     return dict(t, start=min(c["start"] for c in exons), end=max(c["end"] for c in exons), score=".")
 
 
+SINGLE_BY_ID = "bed12 given an id raised %s for a transcript without block children (single-block export expected)"
+
+
 def run_bed12(ctx, case):
     import gffutils
-    from gffutils import constants, convert
 
     text = annotation_text(case)
-    fmt = case["fmt"]
     try:
         db = gffutils.create_db(text, ":memory:", from_string=True)
     except Exception as ex:
         ctx.violation(case, {"why": "create_db raised %s" % type(ex).__name__, "exception": repr(ex), "text": text})
         return
+    found = []
     try:
         for ci, c in enumerate(case["calls"]):
-            t = model_transcript(case["transcripts"][c["t"]], fmt)
-            opts = {"block": c["block"], "thick": c["thick"], "thin": c["thin"], "name_field": c["name_field"], "color": c["color"]}
-            exp = M.bed12_expect(t, t["children"], opts)
-            info = {"call": ci, "transcript": t["id"], "given as": c["as"], "options": opts}
-            try:
-                arg = t["id"] if c["as"] == "id" else db[t["id"]]
-            except Exception as ex:
-                ctx.violation(case, dict(info, why="looking the transcript up raised %s" % type(ex).__name__, exception=repr(ex), text=text))
-                return
-            if c["as"] == "feature":
-                # the feature itself must agree with the file (otherwise the model would judge another transcript)
-                if (arg.start, arg.end, arg.strand, arg.seqid) != (t["start"], t["end"], t["strand"], t["seqid"]):
-                    raise AssertionError("harness: stored transcript %r differs from the generated one: %s" % (t["id"], arg))
-            ctx.mon("bed12 calls by id" if c["as"] == "id" else "bed12 calls by Feature")
-            line, raised = None, None
-            try:
-                line = db.bed12(arg, block_featuretype=c["block"], thick_featuretype=c["thick"], thin_featuretype=c["thin"],
-                                name_field=c["name_field"], color=c["color"])
-            except Exception as ex:
-                raised = ex
-            finally:
-                if constants.always_return_list is not True:
-                    constants.always_return_list = True
-                    ctx.violation(case, dict(info, why="bed12 left always_return_list changed"))
-                    return
-            if "raises" in exp:
-                if raised is None:
-                    ctx.violation(case, dict(info, why="blocks do not span the feature but bed12 returned a line instead of raising ValueError",
-                                             got=line, text=text))
-                    return
-                if not isinstance(raised, ValueError):
-                    ctx.violation(case, dict(info, why="blocks do not span the feature: %s raised instead of ValueError" % type(raised).__name__,
-                                             exception=repr(raised), text=text))
-                    return
-                ctx.mon("bed12 ValueError expected and raised")
-                continue
-            if raised is not None:
-                single = " for a transcript without block children (single-block export expected)" if exp["single"] else ""
-                ctx.violation(case, dict(info, why="bed12 given %s raised %s%s" % (
-                    "an id" if c["as"] == "id" else "a Feature", type(raised).__name__, single), exception=repr(raised), text=text))
-                return
-            why, detail = M.judge_bed12(line, exp)
-            ctx.mon("bed12 lines compared")
-            if exp["thick_present"]:
-                ctx.mon("bed12 thickStart/thickEnd judged")
-            if exp["single"]:
-                ctx.mon("bed12 single-block exports")
-            if exp["fields"][3] == ".":
-                ctx.mon("bed12 name field absent -> '.'")
-            if why:
-                ctx.violation(case, dict(info, why="bed12: " + why, detail=detail, got=line, text=text))
-                return
-            if c.get("to_bed12") and not exp["single"]:
-                for given in ("id", "feature"):
-                    try:
-                        out = convert.to_bed12(t["id"] if given == "id" else db[t["id"]], db, child_type=c["block"],
-                                               name_field=c["name_field"])
-                    except Exception as ex:
-                        ctx.violation(case, dict(info, why="convert.to_bed12 raised %s" % type(ex).__name__, exception=repr(ex), text=text))
-                        return
-                    why, detail = M.judge_bed12(out, exp, only=(0, 1, 2, 9, 10, 11))
-                    ctx.mon("to_bed12 lines compared (fields 1-3, 10-12)")
-                    if why:
-                        ctx.violation(case, dict(info, why="convert.to_bed12: " + why, detail=detail, got=out, text=text))
-                        return
+            r = one_call(ctx, case, db, ci, c)
+            if r:
+                found.append(r)
     finally:
         db.conn.close()
+    if found:
+        # one report per case; a reason other than the id/single-block one goes first
+        found.sort(key=lambda d: d["why"].startswith("bed12 given an id raised") and "single-block" in d["why"])
+        first = dict(found[0])
+        if len(found) > 1:
+            first["also"] = [{"call": d["call"], "why": d["why"]} for d in found[1:8]]
+        first["text"] = text
+        ctx.violation(case, first)
+
+
+def one_call(ctx, case, db, ci, c):
+    """Runs one bed12 call (+ to_bed12); returns a violation detail or None."""
+    from gffutils import constants, convert
+
+    fmt = case["fmt"]
+    t = model_transcript(case["transcripts"][c["t"]], fmt)
+    opts = {"block": c["block"], "thick": c["thick"], "thin": c["thin"], "name_field": c["name_field"], "color": c["color"]}
+    exp = M.bed12_expect(t, t["children"], opts)
+    info = {"call": ci, "transcript": t["id"], "given as": c["as"], "options": opts}
+    try:
+        feat = db[t["id"]]
+    except Exception as ex:
+        return dict(info, why="looking the transcript up raised %s" % type(ex).__name__, exception=repr(ex))
+    # the stored feature must agree with the file (otherwise the model would judge another transcript)
+    if (feat.start, feat.end, feat.strand, feat.seqid, feat.score) != (t["start"], t["end"], t["strand"], t["seqid"], t["score"]):
+        raise AssertionError("harness: stored transcript %r differs from the generated one: %s" % (t["id"], feat))
+    arg = t["id"] if c["as"] == "id" else feat
+    ctx.mon("bed12 calls by id" if c["as"] == "id" else "bed12 calls by Feature")
+    line, raised = None, None
+    try:
+        line = db.bed12(arg, block_featuretype=c["block"], thick_featuretype=c["thick"], thin_featuretype=c["thin"],
+                        name_field=c["name_field"], color=c["color"])
+    except Exception as ex:
+        raised = ex
+    finally:
+        changed = constants.always_return_list is not True
+        constants.always_return_list = True
+    if changed:
+        return dict(info, why="bed12 left always_return_list changed")
+    if "raises" in exp:
+        if raised is None:
+            return dict(info, why="blocks do not span the feature but bed12 returned a line instead of raising ValueError", got=line)
+        if not isinstance(raised, ValueError):
+            return dict(info, why="blocks do not span the feature: %s raised instead of ValueError" % type(raised).__name__,
+                        exception=repr(raised))
+        ctx.mon("bed12 ValueError expected and raised")
+        return None
+    if raised is not None:
+        if exp["single"] and c["as"] == "id":
+            why = SINGLE_BY_ID % type(raised).__name__
+        else:
+            why = "bed12 given %s raised %s" % ("an id" if c["as"] == "id" else "a Feature", type(raised).__name__)
+        return dict(info, why=why, exception=repr(raised))
+    why, detail = M.judge_bed12(line, exp)
+    ctx.mon("bed12 lines compared")
+    if exp["thick_present"]:
+        ctx.mon("bed12 thickStart/thickEnd judged")
+    if exp["single"]:
+        ctx.mon("bed12 single-block exports")
+    if exp["fields"][3] == ".":
+        ctx.mon("bed12 name field absent -> '.'")
+    if why:
+        return dict(info, why="bed12: " + why, detail=detail, got=line)
+    if c.get("to_bed12") and not exp["single"]:
+        for given in ("id", "feature"):
+            try:
+                out = convert.to_bed12(t["id"] if given == "id" else db[t["id"]], db, child_type=c["block"],
+                                       name_field=c["name_field"])
+            except Exception as ex:
+                return dict(info, why="convert.to_bed12 raised %s" % type(ex).__name__, exception=repr(ex))
+            why, detail = M.judge_bed12(out, exp, only=(0, 1, 2, 9, 10, 11))
+            ctx.mon("to_bed12 lines compared (fields 1-3, 10-12)")
+            if why:
+                return dict(info, why="convert.to_bed12: " + why, detail=detail, got=out)
+    return None
 
 
 def case_classes(case):
@@ -286,20 +302,42 @@ def case_classes(case):
 def run(ctx):
     rng = ctx.rng
     # 1. sequence / len
-    for _ in range(ctx.budget(100, 8000)):
+    for _ in range(ctx.budget(400, 16000)):
         seqs = G.genome(rng, maxlen=3000 if ctx.tier == "quick" else 6000)
         case = {"kind": "seq", "genome": seqs, "slices": G.slices(rng, seqs, 40), "origin": rng.choice(["line", "line", "ctor", "db"])}
         execute(ctx, case)
         ctx.case(case, any(sl[3] == "-" for sl in case["slices"]), cls="seq origin=" + case["origin"])
         ctx.mon("slices on the minus strand", sum(1 for sl in case["slices"] if sl[3] == "-"))
-    # 2. bed12
-    for _ in range(ctx.budget(700, 48000)):
-        case = G.bed_case(rng, "gtf" if rng.random() < 0.3 else "gff3")
+    # 2. bed12 (transcripts whose block selection is empty are given as Feature here)
+    bed_phase(ctx, rng, ctx.budget(3000, 120000), False)
+    # 3. bed12 by id for transcripts without block children: last, so that a defect there cannot push other reports
+    #    out of the per-shard record
+    if ctx.shard == 0:
+        execute(ctx, CANONICAL_SINGLE)
+        ctx.case(CANONICAL_SINGLE, True)
+    bed_phase(ctx, rng, ctx.budget(400, 16000), True)
+
+
+def bed_phase(ctx, rng, n, single_by_id):
+    for _ in range(n):
+        case = G.bed_case(rng, "gtf" if rng.random() < 0.3 else "gff3", single_by_id=single_by_id)
         execute(ctx, case)
         classes, nontrivial = case_classes(case)
         for c in classes:
             ctx.classes[c] += 1
-        ctx.case(case, nontrivial, sample={"fmt": case["fmt"], "calls": case["calls"][:2], "text": annotation_text(case)[:700]})
+        if single_by_id:
+            ctx.classes["single block by id"] += 1
+        ctx.case(case, nontrivial or single_by_id,
+                 sample=None if single_by_id else {"fmt": case["fmt"], "calls": case["calls"][:2], "text": annotation_text(case)[:700]})
+
+
+CANONICAL_SINGLE = {
+    "kind": "bed12", "fmt": "gff3", "shuffle_seed": None,
+    "transcripts": [{"id": "t0", "seqid": "chr1", "strand": "+", "start": 100, "end": 200, "score": ".", "type": "mRNA",
+                     "attrs": [["ID", ["t0"]], ["Parent", ["g0"]]], "children": [], "shape": "spanning"}],
+    "calls": [{"t": 0, "as": "id", "block": ["exon"], "thick": ["CDS"], "thin": None, "name_field": "ID", "color": None,
+               "to_bed12": False}],
+}
 
 
 MANIFEST = {
